@@ -15,7 +15,35 @@ import common as C
 from props.base import NAN, Prop, dec, decs, enc, encs
 from props import c04 as B
 
-UNSEEN = ["zz_unseen", "", "A", "nan", "None", 7, 3.25, -1, 0, "7"]
+UNSEEN = ["zz_unseen", "", "A", "nan", "None", 7, 3.25, -1, 0, "7", "__OTHER__", "__NAN__", "RARE", "MISSING"]
+
+
+def twins(known):
+    """values never seen at fit whose str() / number equals a fitted category: 1 for "1", 2.5 for
+    "2.5", "2.0" / "2" for 2.0 ... (bools are left out: the model's carrier has no bool)"""
+    out = []
+
+    def add(v):
+        if not B.isin(v, known) and not B.isin(v, out):
+            out.append(v)
+
+    for v in known:
+        if isinstance(v, str):
+            try:
+                x = float(v)
+            except ValueError:
+                continue
+            if math.isfinite(x):
+                if x.is_integer() and abs(x) < 2 ** 53:
+                    add(int(x))
+                else:
+                    add(x)
+        elif not C.is_nan(v) and math.isfinite(v):
+            add(str(v))
+            add(str(float(v)))
+            if float(v).is_integer():
+                add(str(int(v)))
+    return out
 
 
 def quant_probes(rng, st, train):
@@ -97,6 +125,10 @@ def make_probes(rng, st, train):
         withnan.insert(rng.randint(0, len(withnan)), NAN)
         probes.append(("known+nan", withnan, None))
         probes.append(("literal-markers", list(known) + [st["str_nan"], st["str_default"]], None))
+        tw = twins(known)
+        if tw:
+            probes.append(("twins", list(known[:3]) + tw[:6], None))
+            probes.append(("single-twin", [rng.choice(tw)], None))
         if known:
             probes.append(("single", [rng.choice(known)], None))
     probes.append(("empty", [], "float64"))
@@ -135,10 +167,30 @@ def leq(a, b):
     return B.leq(a, b)
 
 
-def oracle_c05(st_json, cells, outs, fitted=True):
+def behavioural_default(st, train):
+    """the default group identified from BEHAVIOUR: the value of a categorical feature's order that
+    is neither a training value, nor the string form of one, nor str_nan"""
+    if train is None:
+        return None
+    seen = []
+    for v in train:
+        if not C.is_nan(v):
+            seen.append(v)
+            if not isinstance(v, str):
+                seen.append(B.py_strform(v))
+    extra = [v for v in st.values() if not B.isin(v, seen) and not (isinstance(v, str) and v == st.nan)]
+    return extra[0] if len(extra) == 1 and isinstance(extra[0], str) else None
+
+
+def oracle_c05(st_json, cells, outs, fitted=True, cat_train=None):
     st = B.St(st_json)
     cells = decs(cells)
     vals = st.values()
+    bd = behavioural_default(st, cat_train) if (fitted and st.kind == "qual") else None
+    if bd is not None and bd != st.default:
+        return False, (f"feature {st_json['name']}: rare training categories were grouped under {bd!r} but "
+                       f"the object's str_default is {st.default!r}: unseen categories cannot reach the "
+                       f"default group")
     if not fitted:
         wf = (len(st.keys) == len(st.content) and all(B.isin(k, [kk for kk, _ in st.content]) for k in st.keys)
               and not any(B.isin(k, st.keys[:i]) for i, k in enumerate(st.keys))
@@ -170,6 +222,10 @@ def oracle_c05(st_json, cells, outs, fitted=True):
     outs = decs(outs)
     if len(outs) != len(cells):
         return False, f"feature {st_json['name']}: {len(cells)} cells in, {len(outs)} out"
+    for c, o in zip(cells, outs):
+        if reason(c):
+            return False, (f"feature {st_json['name']}: cell {c!r} (unseen category without default group / "
+                           f"unexpected missing value) was accepted and came out as {o!r}")
     for c, o in zip(cells, outs):
         if C.is_nan(o):
             if st.dropna or st.label(st.nan) is None:
@@ -221,7 +277,8 @@ class C05(B.C04):
             "(incl. orders without the +inf sentinel); every fitted feature is probed by 5-7 frames "
             "(numbers: each boundary and its two nextafter neighbours, midpoints, training min/max "
             "+-1, +-1e308, +-5e-324, +-max double, +-inf; categories: all known values, unseen "
-            "strings/numbers, the literal str_nan/str_default markers; injected NaN; single-row and "
+            "strings/numbers, the literal str_nan/str_default markers (custom sentinels in ~1/3 of the "
+            "cases with a categorical feature), number/string twins of fitted categories; injected NaN; single-row and "
             "empty frames), the other columns holding a value seen at fit; observable per probe "
             "frame: output cells of the probed feature or the exception class; distinct = distinct "
             "(class, kind, output_dtype, dropna, probe tag, outcome class, #groups, NaN placement, "
@@ -236,7 +293,21 @@ class C05(B.C04):
 
     def corpus(self):
         import random
-        return hand_cases(random.Random(5))
+        cs = hand_cases(random.Random(5))
+        # custom sentinels, rare categories (default group), string categories that look like numbers
+        for cls, extra in (("Discretizer", {}), ("QualitativeDiscretizer", {}),
+                           ("BinaryCarver", {"max_n_mod": 3, "sort_by": "tschuprowt"})):
+            pool = ["A"] * 8 + ["B"] * 6 + ["C"] * 4 + ["E", "F"]
+            xs = [pool[(i * 7) % len(pool)] for i in range(120)]
+            xs[5] = xs[40] = NAN
+            num = [["1", "2", "3"][(i * 5 + i // 7) % 3] for i in range(120)]
+            cs.append({"cls": cls, "json": cls == "QualitativeDiscretizer", "probe_seed": 11,
+                       "kwargs": {"str_default": "AUTRES", "str_nan": "MANQUANT"},
+                       "params": dict({"min_freq": 0.1, "output_dtype": "str", "dropna": True}, **extra),
+                       "features": [{"name": "c0", "kind": "cat", "flavour": "rare", "values": encs(xs)},
+                                    {"name": "c1", "kind": "cat", "flavour": "numstr", "values": encs(num)}],
+                       "y": [1 if (i * 3) % 7 < 3 + (x == "A") else 0 for i, x in enumerate(xs)]})
+        return cs
 
     def generate(self, rng, tier):
         n = 170 if tier == "quick" else 1800
@@ -252,6 +323,9 @@ class C05(B.C04):
             c = B.gen_case(rng, cls, force)
             if len(c["y"]) > 200:
                 c = B.gen_case(rng, cls, dict(force, n=rng.choice([40, 80, 120])))
+            if "cat" in [f["kind"] for f in c["features"]] and rng.random() < 0.35:
+                c["kwargs"] = rng.choice([{"str_default": "RARE"}, {"str_nan": "MISSING", "str_default": "RARE"},
+                                          {"str_default": "AUTRES", "str_nan": "MANQUANT"}])
             c["probe_seed"] = rng.randint(0, 10 ** 9)
             cases.append(c)
         return cases
@@ -284,7 +358,9 @@ class C05(B.C04):
         return {"features": states, "runs": runs}
 
     def run_msg(self, case, st, r):
-        ok, msg = oracle_c05(st, r["cells"], r["out"], fitted=case["cls"] != "Base")
+        f = next((f for f in case["features"] if f["name"] == st["name"]), None)
+        train = decs(f["values"]) if (f is not None and f["kind"] == "cat" and "hand" not in f) else None
+        ok, msg = oracle_c05(st, r["cells"], r["out"], fitted=case["cls"] != "Base", cat_train=train)
         if ok:
             return None
         return (f"[probe {r['tag']}, index {r.get('index')}] {msg}"
